@@ -17,6 +17,27 @@ from harness import core
 PROP = 'C15'
 ALPHABET = '@[]:/.>-01A '
 
+META = dict(
+    text='Kernel-checked theorems, for strings of every length, over the Lean model of NodePathParser (the 9-state machine with its '
+         'token / slice-element / id / separator accumulators, first-character check and end-of-input handling) and of '
+         'NodePath.__str__: (1) parse s = ok p  <->  the recursive-descent recogniser written from the EBNF of docs/internals.rst '
+         'yields p on s with whitespace removed (same subset slice, same components, same slices: nothing outside the grammar is '
+         'accepted, nothing inside is rejected, nothing is dropped); (2) every rejection is the path-parsing error (the assert in '
+         'create_slice_object is unreachable); (3) every accepted path is canonical; (4) parse(print p) = p for every canonical p, '
+         'hence (5) parse(print(parse s)) = parse s. The correspondence run parses every string of length <= 5 (quick) / <= 6 '
+         '(thorough) over the 12-symbol alphabet of the property, plus random grammar-derived expressions (<= 12 components, '
+         'whitespace), single-character and structural mutations of them and random token sequences, with both the model and pybufrkit.dataquery.NodePathParser and '
+         'compares outcome family, subset slice, component triples and the printout (NodePath.__str__ vs print) exactly; the oracle compares the implementation with the '
+         'executable grammar and checks the print/parse law on the implementation alone.',
+    technique='Lean 4 theorems (state-machine invariants by induction on the input: whitespace erasure, token runs, slice bodies vs '
+              'splitting on colons, component induction on fuel; decimal printing/parsing round trip) + exhaustive and random '
+              'checked model/implementation correspondence + implementation-vs-grammar oracle',
+    note="Python's int() is modelled as '-'? digit+ and whitespace as the six ASCII blanks of string.whitespace (the property's "
+         "alphabet); '+1', '1_0', non-ASCII digits/blanks are outside the model. The grammar's open points (what an id is, first "
+         "character in @/>0-9A-Z, no leading '.') follow the code and are listed in Spec/PathGrammar.lean. Theorems are stated over "
+         'List Char. The model is the parser after fix F2 (ee91e13).',
+)
+
 
 def slice_repr(s):
     if s is None:
@@ -43,9 +64,10 @@ def impl_parse(s):
     if _parser is None:
         _parser = NodePathParser()
     try:
-        return path_repr(_parser.parse(s)), None
+        np = _parser.parse(s)
     except Exception as e:
         return 'E:' + core.err_tag(e)[4:], None
+    return path_repr(np), str(np)
 
 
 def impl_roundtrip(s):
@@ -83,18 +105,27 @@ def enum_chunk(args):
     mism = []
     accepted = 0
     rt_fail = []
+    printed = []
     for k, i in enumerate(range(lo, hi)):
         s = nth_string(length, i)
-        r, _ = impl_parse(s)
+        r, pr = impl_parse(s)
         if not r.startswith('E:'):
             accepted += 1
+            printed.append((s, pr))
             msg = impl_roundtrip(s)
             if msg and len(rt_fail) < 5:
                 rt_fail.append((s, msg))
         if r != model[k]:
             if len(mism) < 20:
                 mism.append((s, r, model[k]))
-    return {'n': hi - lo, 'accepted': accepted, 'mismatch': mism, 'specdiff': resp['specdiff'], 'rt_fail': rt_fail}
+    # NodePath.__str__ against the model's `print` on every accepted string
+    print_mism = []
+    if printed:
+        for (s, pr), m in zip(printed, drv.batch([{'op': 'path', 's': s} for s, _ in printed])):
+            if m['print'] != pr and len(print_mism) < 5:
+                print_mism.append((s, pr, m['print']))
+    return {'n': hi - lo, 'accepted': accepted, 'mismatch': mism, 'specdiff': resp['specdiff'], 'rt_fail': rt_fail,
+            'print_mism': print_mism}
 
 
 # ---------------------------------------------------------------------------------------------
@@ -146,6 +177,29 @@ def gen_expr(rng):
     return s
 
 
+FRAGMENTS = ['[0]', '[1:2]', '[::]', '[-1]', '[:]', '[]', '[::::]', '[1:2:3:4]', '@[0]', '@[1:]', '@', '/', '.', '>', '..', '/.',
+             '[', ']', ':', '-', ' ', '\t', '001001', 'A', '0', '[0][1]', '[ 1 : 2 ]', '[1-2]', '[--1]', '[-]']
+SOUP = ['@', '[', ']', ':', '/', '.', '>', '-', '0', '1', '12', 'A', 'a', '001001', '301001', '[0]', '[1:2]', '[::]', '[-1]', '[-2]',
+        '[:3]', '[1:2:3]', '@[0]', '@[-1]', '@[::2]', ' ', '\n']
+
+
+def gen_soup(rng):
+    """token-level random string: reaches state sequences that need more than 6 characters (e.g. `A[0][1]`, `@[0]@[1]/A`)"""
+    return ''.join(rng.choice(SOUP) for _ in range(rng.randint(1, 8)))
+
+
+def mutate_fragment(rng, s):
+    """structural mutation: insert a grammar fragment, duplicate or delete a substring"""
+    i = rng.randrange(len(s) + 1)
+    k = rng.random()
+    if k < 0.6:
+        return s[:i] + rng.choice(FRAGMENTS) + s[i:]
+    j = min(len(s), i + rng.randint(1, 6))
+    if k < 0.8:
+        return s[:j] + s[i:j] + s[j:]
+    return s[:i] + s[j:]
+
+
 def mutate(rng, s):
     if not s:
         return rng.choice(ALPHABET)
@@ -164,8 +218,10 @@ def mutate(rng, s):
 def check_strings(ctx, strings, label):
     resp = ctx.driver.batch([{'op': 'path', 's': s} for s in strings])
     for s, m in zip(strings, resp):
-        r, _ = impl_parse(s)
+        r, pr = impl_parse(s)
         accepted = not r.startswith('E:')
+        if accepted and r == m['parse'] and pr != m['print']:
+            ctx.corr_breaks.append({'string': s, 'impl': 'print:' + pr, 'model': 'print:' + str(m['print'])})
         ctx.case({'s': s}, nontrivial=accepted or len(s) > 3, sample=(ctx.evaluations % 499 == 0))
         ctx.traces += 1
         ctx.count(label + (':accepted' if accepted else ':rejected'))
@@ -199,7 +255,8 @@ def run(ctx):
     maxlen = 5 if ctx.tier == 'quick' else 6
     ctx.rule = ('exhaustive: all strings of length 0..%d over the alphabet %r enumerated by index on both sides; random: '
                 'grammar-derived expressions (<= 12 components, slices, subset selectors, whitespace) each with 3 single-character '
-                'mutations. Non-trivial: accepted strings, or rejected strings longer than 3 characters; distinct by string.' % (maxlen, ALPHABET))
+                'mutations and one structural mutation (inserted grammar fragment, duplicated or deleted substring); random token-level strings ' 
+                '(<= 8 tokens out of ids, separators, brackets, whole slices and selectors). Non-trivial: accepted strings, or rejected strings longer than 3 characters; distinct by string.' % (maxlen, ALPHABET))
     # corpus
     cdir = os.path.join(core.VERIF, 'corpus', PROP)
     if os.path.isdir(cdir):
@@ -233,6 +290,8 @@ def run(ctx):
                 report_if_bad(ctx, s, impl, m['parse'], m['spec'])
         for s, msg in res['rt_fail']:
             ctx.violation('print/parse: ' + msg, {'string': s, 'what': msg}, signature={'kind': 'roundtrip'})
+        for s, pr, mpr in res['print_mism']:
+            ctx.corr_breaks.append({'string': s, 'impl': 'print:' + pr, 'model': 'print:' + str(mpr)})
     ctx.exhaustive = True
     # distinct non-trivial among enumerated: accepted + all rejected of length > 3 (all strings are distinct)
     enum_nontrivial = sum(len(ALPHABET) ** L for L in range(4, maxlen + 1)) + sum(
@@ -249,7 +308,10 @@ def run(ctx):
         strings.append(e)
         for _ in range(3):
             strings.append(mutate(rng, e))
+        strings.append(mutate_fragment(rng, e))
     check_strings(ctx, strings, 'random')
+    rng2 = ctx.rng('soup')
+    check_strings(ctx, sorted(set(gen_soup(rng2) for _ in range(2 * n))), 'soup')
     # fold enumerated count into the distinct non-trivial total (strings are pairwise distinct by construction)
     ctx.nontrivial |= {'enum:%d' % k for k in range(0)}  # no-op, keeps type
     ctx.extra_nontrivial = enum_nontrivial
